@@ -10,6 +10,7 @@ Environment: C12_SKIP_KNOWN=1 (default off) leaves out the one input class of th
 import random, os, json, itertools, multiprocessing as mp
 from fractions import Fraction as F
 from ..common import Result, OUT, scratch, run_tlc, Machinery, tlc_error_excerpt
+from ..common import fork_pool
 from .. import domains as D
 from ..calltrace import judge_calls
 from . import c11
@@ -259,7 +260,7 @@ def run(tier, seed, replay=None):
         res.notes["mc_negative_controls_violated"] = {"ControlOneOrderPreservesFpv": True}
         calls = corpus(tier, seed)
     res.evaluations = len(calls)
-    with mp.get_context("fork").Pool(16) as pool:
+    with fork_pool(16) as pool:
         traces = [t for ts in pool.imap_unordered(adt.c12_work, calls, chunksize=32) for t in ts]
     traces.sort(key=adt.trace_key)
     for t in traces:
